@@ -12,6 +12,9 @@
 //   - the freeSize boundary of the production pool New(1024, 1<<30) costs a gibibyte per
 //     operation, so it is not in the general alphabet; it has a restricted family of its own
 //     (giant.go: one giant handle, sparse content probes).
+//   - sizes are not only the absolute boundary sets: a second search per allocator (rel.go) adds
+//     the caller's reslices and growth targets relative to the handle's current len and cap
+//     (added after seeded change C20-m4, which the absolute sets missed).
 //   - the pools' contents are not read through a hook: everything a pool can hold was handed to
 //     the allocator by the harness, so the canonical state uses the harness' own list of
 //     given-back buffers (see world.key).
@@ -82,13 +85,14 @@ func depthFor(c *acfg, tier string) (depth, split int) {
 
 // extDepthFor: bounds of the extended-alphabet search (rel.go).
 func extDepthFor(c *acfg, tier string) (depth, split int) {
+	big := c.Name == "aligned@32K+rel"
 	if tier == "thorough" {
-		if c.Kind == "aligned" {
+		if big {
 			return 4, 2
 		}
 		return 5, 3
 	}
-	if c.Kind == "aligned" {
+	if big {
 		return 3, 2
 	}
 	return 4, 2
@@ -154,10 +158,12 @@ func main() {
 	vsync.PoolMissDeviations = true
 	vkit.Main(&vkit.Spec{
 		Property: "C20", Level: "model_checking",
-		Rule: "sequential: one case = one execution of a program (sequence of Malloc/Append/AppendString/Realloc/Free on <=3 simultaneously live handles, sizes from the allocator's boundary set) with one assignment of sync.Pool answers, replayed from scratch on a fresh allocator; all programs up to the depth bound are covered by breadth-first search with merging of equal (implementation, model) states; a case is non-trivial when its last operation got recycled memory, moved the buffer, or ran with >=2 live buffers. concurrent: one scenario = allocator x pair of thread scripts x debug counters on/off, all interleavings within the preemption bound; non-trivial when both threads held a live buffer at the same time",
+		Rule: "sequential: one case = one execution of a program (sequence of Malloc/Append/AppendString/Realloc/Free on <=3 simultaneously live handles, sizes from the allocator's boundary set) with one assignment of sync.Pool answers, replayed from scratch on a fresh allocator; all programs up to the depth bound are covered by breadth-first search with merging of equal (implementation, model) states; a case is non-trivial when its last operation got recycled memory, moved the buffer, or ran with >=2 live buffers. extended search (<allocator>+rel): the same on a reduced absolute alphabet plus the caller's reslices X (to length 0 and to the capacity) and Realloc/Append/AppendString targets derived from the current len l and cap c of the handle (c+1, 2l-1, 2l, 2l+1, 2c-1, 2c, 2c+1, 3c+1, l+1, c, 2c-l, 2c-l+1, 4c, 4l+1; growth only), any number per program, so that buffers with len < cap reached by every route (shrinking Realloc, Malloc rounding up, Append or growing Realloc leaving spare capacity, caller reslice) are grown by factors below, at and above 2x of both len and cap. concurrent: one scenario = allocator x pair of thread scripts x debug counters on/off, all interleavings within the preemption bound; non-trivial when both threads held a live buffer at the same time",
 		Assumptions: []string{
 			"sizes are >= 0; programs never use a handle after giving it to Free or after Append/Realloc returned a different handle, and never free twice (C11's subject)",
 			"bytes exposed by Malloc and by Realloc beyond the old length are unspecified; the harness overwrites them at once",
+			"the caller may reslice a live buffer anywhere within its capacity (nbio's own code does: (*pbuf)[0:0] after Malloc, (*pbuf)[:n], (*pbuf)[:cap(*pbuf)]); 'previous contents' of Append/Realloc are the bytes [0:len) at the time of the call; bytes a reslice exposes are unspecified and overwritten at once",
+			"a panic escaping an allocator operation on such a program is a violation (signature '<allocator> <operation> panic: <text, numbers normalised>')",
 			"'share memory' is judged over the whole capacity [base, base+cap) of live buffers; zero-capacity buffers share nothing",
 			"leaks are not violations (std Realloc and every allocator's Append may abandon the old array)",
 			"sync.Pool is the scheduler shim: Get returns the most recently pooled object or a new one (both enumerated at every Get); it never returns an older pooled object while a newer one stays pooled",
